@@ -24,9 +24,22 @@ EXTRA['deep'] = dict(
               'Sheet1!D1': lambda v: (v['Sheet1!A1'] + v['Sheet1!A2']) * 2 + v['Sheet1!A2'] + v['Sheet1!A3'],
               'Sheet2!A1': lambda v: v['Sheet1!A2'] + v['Sheet1!A3']},
     names={'top': 'Sheet1!C1', 'out': 'Sheet2!A1'},
+    all_names={'top': 'Sheet1!C1', 'out': 'Sheet2!A1', 'k': 'Sheet2!B1'},
     closure={'Sheet1!B1': ['Sheet1!A1', 'Sheet1!A2'], 'Sheet1!C1': ['Sheet1!B1', 'Sheet1!A1', 'Sheet1!A2'],
              'Sheet1!D1': ['Sheet1!C1', 'Sheet1!B1', 'Sheet1!A1', 'Sheet1!A2', 'Sheet1!A3'],
              'Sheet2!A1': ['Sheet1!D1', 'Sheet1!C1', 'Sheet1!B1', 'Sheet1!A1', 'Sheet1!A2', 'Sheet1!A3']},
+)
+EXTRA['spellings'] = dict(
+    make=lambda: _named({'Sheet1!A1': 1, 'Sheet1!A2': 2, 'Sheet1!A3': 3, 'Sheet1!B1': 4, 'Sheet1!C1': '=SUM(A1:A3)', 'Sheet1!D1': '=SUM($A$1:$A$3)*inp+C1', 'Sheet1!E1': '=SUM(A$1:A$3)-$A$1+inp'},
+                        {'inp': 'Sheet1!B1'}),
+    inputs=['Sheet1!A1', 'Sheet1!A2', 'Sheet1!A3', 'Sheet1!B1'],
+    formulas={'Sheet1!C1': lambda v: v['Sheet1!A1'] + v['Sheet1!A2'] + v['Sheet1!A3'],
+              'Sheet1!D1': lambda v: (v['Sheet1!A1'] + v['Sheet1!A2'] + v['Sheet1!A3']) * v['Sheet1!B1'] + (v['Sheet1!A1'] + v['Sheet1!A2'] + v['Sheet1!A3']),
+              'Sheet1!E1': lambda v: v['Sheet1!A2'] + v['Sheet1!A3'] + v['Sheet1!B1']},
+    names={},
+    all_names={'inp': 'Sheet1!B1'},
+    closure={'Sheet1!C1': ['Sheet1!A1', 'Sheet1!A2', 'Sheet1!A3'], 'Sheet1!D1': ['Sheet1!C1', 'Sheet1!A1', 'Sheet1!A2', 'Sheet1!A3', 'Sheet1!B1'],
+             'Sheet1!E1': ['Sheet1!A1', 'Sheet1!A2', 'Sheet1!A3', 'Sheet1!B1']},
 )
 CLOSURES = {
     'chain': {'Sheet1!B1': ['Sheet1!A1'], 'Sheet1!C1': ['Sheet1!B1', 'Sheet1!A1', 'Sheet1!A2'], 'Sheet1!D1': ['Sheet1!C1', 'Sheet1!B1', 'Sheet1!A1', 'Sheet1!A2']},
@@ -48,6 +61,7 @@ def extract_obs(mname, spec, closure, timeout, nchanges, sparse=False):
     inputs = spec['inputs']
     fcells = list(spec['formulas'])
     names = dict(spec['names'])
+    all_names = dict(spec.get('all_names', spec['names']))
     cands = fcells + [n for n in names if names[n] in spec['formulas']]   # focus candidates: formula cells and names bound to them
     nc = len(cands)
 
@@ -85,8 +99,13 @@ def extract_obs(mname, spec, closure, timeout, nchanges, sparse=False):
                     return False
             if step < nchanges:
                 a = inputs[concretize(ch_idx[step], 0, len(inputs) - 1)]
-                eo.set_cell_value(a, ch_vals[step])
-                ex.set_cell_value(a, ch_vals[step])
+                # an input that has a defined name is changed through that name (when the name is in the extracted model)
+                spelled = a
+                for nm_, tgt in all_names.items():
+                    if tgt == a and nm_ in X.defined_names:
+                        spelled = nm_
+                eo.set_cell_value(spelled, ch_vals[step])
+                ex.set_cell_value(spelled, ch_vals[step])
                 cur[a] = ch_vals[step]
         # the inputs of the original were changed only by the explicit set_cell_value calls
         for a in inputs:
@@ -138,4 +157,5 @@ def build(tier, seed):
     for mname, spec in specs.items():
         obs += extract_obs(mname, spec, CLOSURES[mname], 900 if thorough else 400, 2 if thorough else 1)
     obs += extract_obs('deep', EXTRA['deep'], EXTRA['deep']['closure'], 3000 if thorough else 600, 2 if thorough else 1, sparse=not thorough)
+    obs += extract_obs('spellings', EXTRA['spellings'], EXTRA['spellings']['closure'], 1200 if thorough else 600, 2 if thorough else 1)
     return obs
